@@ -88,10 +88,27 @@ func genDescAt(t *rapid.T, depth int, c *gctx, allowResult bool) *desc {
 	case kStruct:
 		n := rapid.IntRange(0, 5).Draw(t, "nfields")
 		// distinct tag numbers in a drawn order (shuffled scale:"N" tags)
-		tags := rapid.Permutation([]int{0, 1, 2, 3, 4, 5, 7, 10}).Draw(t, "tags")
+		tagPool := []int{0, 1, 2, 3, 4, 5, 7, 10}
+		wide := depth <= 1 && rapid.IntRange(0, 7).Draw(t, "wide") == 0
+		if wide {
+			// wide structs (more fields than the insertion-sort cut-off of sort.Slice) with
+			// mixed tagged/untagged fields: the field order must not depend on sort stability
+			n = rapid.IntRange(13, 24).Draw(t, "nwide")
+			tagPool = []int{0, 1, 2, 3, 4, 5, 6, 7, 8, 9, 10, 11, 12, 13, 14, 15, 16, 17, 18, 19, 20, 21, 22, 23, 30, 40, 50, 60}
+			kit.Label("wide-struct>12-fields")
+		}
+		tags := rapid.Permutation(tagPool).Draw(t, "tags")
 		tagMode := rapid.IntRange(0, 3).Draw(t, "tagmode") // 0 none, 1 all, 2/3 mixed
 		for i := 0; i < n; i++ {
 			f := field{tag: tagNone}
+			if wide {
+				if tagMode >= 1 && rapid.IntRange(0, 2).Draw(t, "tagged") == 0 {
+					f.tag = tags[i]
+				}
+				f.d = genPrim(t, []kind{kU8, kU8, kBool, kI32, kString})
+				d.fields = append(d.fields, f)
+				continue
+			}
 			switch {
 			case tagMode == 1, tagMode >= 2 && rapid.Bool().Draw(t, "tagged"):
 				f.tag = tags[i]
